@@ -89,6 +89,10 @@ def run(ctx, chk):
             raise Anchor("%s not found" % an)
         for fld in adt[0]["variants"][0]["fields"]:
             chk.check(R, fld[2] != "pub", "private:%s.%s" % (an.split("::")[-1], fld[0]), "field is public", "rspirv/sr/storage.rs")
+    tadt = [a for p_, a in mir.adts.items() if p_.endswith("sr::storage::Token")][0]
+    ity = [f_[1] for f_ in tadt["variants"][0]["fields"] if f_[0] == "index"]
+    chk.check(R, ity and ity[0] in ("u32", "u64", "usize"), "Token.index:width>=32", "token index type is %s: `len as Index` wraps after 2^%s appends and an "
+              "earlier token is returned again" % (ity, {"u16": 16, "u8": 8}.get(ity[0] if ity else "", "?")), "rspirv/sr/storage.rs", key="C19:index-width")
     # other pub fns of Storage returning/creating tokens
     pubs = [x["name"] for x in ctx.rspirv.fns(STO, "Storage", False) if x["vis"] == "pub"]
     chk.check(R, sorted(pubs) == ["append", "fetch_or_append", "new"], "Storage:public-api", "public methods: %s" % sorted(pubs), "rspirv/sr/storage.rs")
